@@ -31,7 +31,7 @@ pub const SPECS: &[PropSpec] = &[
 ];
 
 pub fn spec(id: &str) -> Option<&'static PropSpec> {
-    SPECS.iter().chain(crate::props2::SPECS.iter()).chain(crate::props3::SPECS.iter()).find(|s| s.id == id)
+    SPECS.iter().chain(crate::props2::SPECS.iter()).chain(crate::props3::SPECS.iter()).chain(crate::props4::SPECS.iter()).find(|s| s.id == id)
 }
 
 pub fn case_signature(case: &Case, d: &Driver) -> u64 {
